@@ -336,6 +336,12 @@ func LoadProgram() (*Program, error) {
 			switch h.Where {
 			case "entry":
 				emit(h.Stmts, append(append([]string{}, base...), ghosts...), "", true)
+			case "loopexit":
+				if h.N < 1 || h.N > len(fi.Loops) {
+					genErrs = append(genErrs, fmt.Sprintf("contracts:%d: %s has no loop %d", h.Stmts.Line, key, h.N))
+					continue
+				}
+				emit(h.Stmts, localParams(fi.Loops[h.N-1].End()), "", true)
 			case "loopbegin", "loopend":
 				if h.N < 1 || h.N > len(fi.Loops) {
 					genErrs = append(genErrs, fmt.Sprintf("contracts:%d: %s has no loop %d", h.Stmts.Line, key, h.N))
